@@ -296,8 +296,27 @@ fn busy_owner(dir: &str, actors: &[Mutex<Actor>], n_threads: usize) -> Result<()
             }
         }
     }
+    // a data snapshot taken from the store is neither a store nor a dump: once the store is
+    // dropped the directory must be free even while the snapshot is still around
+    let snapshot = std::panic::catch_unwind(std::panic::AssertUnwindSafe(|| rl.dump_data())).ok();
     drop(rl);
     crate::trace::wait_threads(threads0, crate::driver::WATCHDOG);
+    if snapshot.is_some() {
+        match std::panic::catch_unwind(|| Dump::<VT>::new(lock_config(dir))) {
+            Ok(Ok(d)) => drop(d),
+            Ok(Err(e)) => return Err(Fail::new("open-after-drop-refused", format!("the owning store was dropped (a dump_data() snapshot of it is still alive), yet Dump::new is refused: {e}"))),
+            Err(p) => return Err(Fail::new("lock/panic", format!("Dump::new panicked: {}", panic_msg(&p)))),
+        }
+        match std::panic::catch_unwind(|| RaftLog::<VT>::open(lock_config(dir))) {
+            Ok(Ok(r2)) => {
+                drop(r2);
+                crate::trace::wait_threads(threads0, crate::driver::WATCHDOG);
+            }
+            Ok(Err(e)) => return Err(Fail::new("open-after-drop-refused", format!("the owning store was dropped (a dump_data() snapshot of it is still alive), yet RaftLog::open is refused: {e}"))),
+            Err(p) => return Err(Fail::new("lock/panic", format!("open panicked: {}", panic_msg(&p)))),
+        }
+    }
+    drop(snapshot);
     if !granted.is_empty() {
         return Err(Fail::new(
             "open-granted-while-owned",
